@@ -150,7 +150,11 @@ pub fn tame_encoder(enc: Enc, store: &RefStore) -> Enc {
 }
 
 pub fn gen_static(rng: &mut Rng, mode: Mode) -> StaticCase {
-    let fw = gen_framework(rng, &GenParams { max_n: 9, allow_removals: true, single_component_pct: 0 });
+    gen_static_n(rng, mode, 9)
+}
+
+pub fn gen_static_n(rng: &mut Rng, mode: Mode, max_n: usize) -> StaticCase {
+    let fw = gen_framework(rng, &GenParams { max_n, allow_removals: true, single_component_pct: 0 });
     let mut store = RefStore::default();
     for u in &fw.ops {
         store.apply(u);
@@ -282,9 +286,11 @@ impl Property for StatQ {
             (Tier::Thorough, _) => 15_000_000,
         }
     }
-    fn gen(&self, run_seed: u64, _tier: Tier) -> Value {
+    fn gen(&self, run_seed: u64, tier: Tier) -> Value {
         let mut rng = Rng::sub(run_seed, "workload");
-        serde_json::to_value(gen_static(&mut rng, self.0)).unwrap()
+        // thorough tier: 1/8 of the frameworks may have up to 12 arguments (RefSem still exhaustive)
+        let max_n = if tier == Tier::Thorough && run_seed % 8 == 0 { 12 } else { 9 };
+        serde_json::to_value(gen_static_n(&mut rng, self.0, max_n)).unwrap()
     }
     fn exec(&self, case: &Value) -> RunResult {
         let case: StaticCase = serde_json::from_value(case.clone()).expect("static case");
